@@ -60,6 +60,39 @@ type Unit struct {
 	journal bool
 	failAs      string // unit name written into fail files (defaults to name)
 	statsSuffix string
+	// the cases executed before the first failure in this process: a failure that does not reproduce from its own
+	// case alone may depend on state an earlier case left behind (caches, memo tables)
+	ring      [][]byte
+	ringLen   int
+	history   [][]byte
+	firstFail []byte
+}
+
+const (
+	ringSize  = 4000
+	ringBytes = 2 << 20
+)
+
+func (u *Unit) remember(js []byte) {
+	if u.firstFail != nil {
+		return
+	}
+	if len(js) > 1<<16 {
+		js = []byte("null")
+	}
+	u.ring = append(u.ring, js)
+	u.ringLen += len(js)
+	for len(u.ring) > ringSize || u.ringLen > ringBytes {
+		u.ringLen -= len(u.ring[0])
+		u.ring = u.ring[1:]
+	}
+}
+
+func (u *Unit) noteFailure(js []byte) {
+	if u.firstFail == nil {
+		u.firstFail = js
+		u.history = append([][]byte{}, u.ring...)
+	}
 }
 
 func OutDir() string { return os.Getenv("VERIF_OUT") }
@@ -151,6 +184,14 @@ func (u *Unit) writeFail(js []byte, msg string, shrunk bool) {
 		as = u.failAs
 	}
 	doc := map[string]any{"check": as, "case": json.RawMessage(js), "failure": msg, "shrunk": shrunk}
+	if u.firstFail != nil {
+		h := make([]json.RawMessage, len(u.history))
+		for i, b := range u.history {
+			h[i] = json.RawMessage(b)
+		}
+		doc["history"] = h
+		doc["first_case"] = json.RawMessage(u.firstFail)
+	}
 	b, _ := json.MarshalIndent(doc, "", " ")
 	os.WriteFile(filepath.Join(u.outDir, u.name+".fail.json"), b, 0o644)
 }
@@ -206,10 +247,12 @@ func Run[C any](t *testing.T, name string, journal bool, gen func(*rapid.T) C, c
 		r := Guard(check, c)
 		u.Record(js, r)
 		if r.Err != nil && r.Excluded == "" {
+			u.noteFailure(js)
 			u.writeFail(js, r.Err.Error(), true)
 			u.Flush()
 			rt.Fatalf("%v", r.Err)
 		}
+		u.remember(js)
 	})
 }
 
@@ -247,8 +290,10 @@ func Replay[C any](t *testing.T, name string, check func(C) Result) {
 		t.Fatalf("harness: %v", err)
 	}
 	var doc struct {
-		Check string          `json:"check"`
-		Case  json.RawMessage `json:"case"`
+		Check   string            `json:"check"`
+		Case    json.RawMessage   `json:"case"`
+		History []json.RawMessage `json:"history"`
+		First   json.RawMessage   `json:"first_case"`
 	}
 	if err := json.Unmarshal(b, &doc); err != nil {
 		t.Fatalf("harness: bad replay file: %v", err)
@@ -262,10 +307,29 @@ func Replay[C any](t *testing.T, name string, check func(C) Result) {
 	}
 	u := NewUnit(name+".replay", true)
 	u.Journal(doc.Case)
-	r := Guard(check, c)
-	if r.Excluded != "" {
-		// replaying a witness of an open finding must judge it, so checks ignore VERIF_EXCLUDE on replay
-		t.Logf("note: case matches open finding %s", r.Excluded)
+	var r Result
+	if len(doc.History) == 0 || os.Getenv("VERIF_REPLAY_ALONE") != "" {
+		r = Guard(check, c)
+	} else {
+		// The failure may depend on what earlier cases left behind in the process (caches, memo tables): the cases that
+		// preceded the first failure are re-run first, in this fresh process, then the (shrunk) case, then the case that
+		// failed first. Running the case alone beforehand would itself change that state, so it is not done here.
+		for _, raw := range doc.History {
+			var h C
+			if json.Unmarshal(raw, &h) == nil {
+				Guard(check, h)
+			}
+		}
+		r = Guard(check, c)
+		if r.Err == nil && len(doc.First) > 0 {
+			var f C
+			if json.Unmarshal(doc.First, &f) == nil {
+				r = Guard(check, f)
+			}
+		}
+		if r.Err != nil {
+			r.Err = fmt.Errorf("(after the %d cases that preceded it in the same process) %v", len(doc.History), r.Err)
+		}
 	}
 	if r.Err != nil {
 		fmt.Printf("REPLAY-FAIL %s: %v\n", name, r.Err)
